@@ -100,9 +100,9 @@ PROPS = {
  },
  "C14": {
   "module": "Zog.Props.C14",
-  "theorems": COMMON + [P + "C14." + t for t in ["absent_inputs_equivalent_prim", "absent_inputs_equivalent_slice", "absent_inputs_equivalent_ptr", "flat_vs_map_lookup", "key_per_source", "bool_rendering", "string_rendering", "int_rendering_examples", "nested_flat_source_fails", "engine_mirrors"]],
+  "theorems": COMMON + [P + "C14." + t for t in ["absent_inputs_equivalent_prim", "absent_inputs_equivalent_slice", "absent_inputs_equivalent_ptr", "flat_vs_map_lookup", "key_per_source", "bool_rendering", "string_rendering", "atoi_inverts_itoa", "int_schemas_read_renderings", "whole_record_flat_vs_map", "whole_record_flat_vs_map_engine", "int_rendering_examples", "nested_flat_source_fails", "engine_mirrors"]] + ["Zog.Spec.flat_and_map_views_agree", "Zog.Spec.viewEq_leaf", "Zog.Spec.fieldLoop_views", "Zog.atoi_toString"],
   "streams": [st("front", 600, 20000), st("http", 800, 12000)],
-  "trusted_base": ["PARTIAL: the equivalence is proved node by node at depth 1 (how a value is absent, which tag names the key, string renderings of bool/string leaves); `atoi (toString n) = n` and the whole-record statement are validated by the S-front stream, not proved; below depth 1 the full statement is false (known finding D17) and the model mirrors the code",
+  "trusted_base": ["PARTIAL: proved for whole FLAT records (`whole_record_flat_vs_map`: every struct schema, record, source tag, visit order and destination; leaves: strings, 64-bit integers via `atoi (toString n) = n`, booleans, repeated values, any leaf whose two presentations its coercer reads alike) between the flat sources (form/query/env) and the map sources (Go map, decoded JSON); that each real front end presents the record as `flatView` / `mapView` describe (encoding/json, net/http, os.Getenv, env trimming) is validated by the S-front stream, not proved; below depth 1 the full statement is false (known finding D17) and the model mirrors the code",
                    "external, taken from the standard library by the harness: encoding/json, net/http ParseForm / URL.Query, os.Getenv"] + ENGINE_TB,
   "assumptions": ENGINE_ASSUME + ["environment variables cannot express lists; env values are trimmed (documented per-source differences)"],
  },
